@@ -374,4 +374,607 @@ theorem mem_samplesFrom (dt : Int) (hdt : 0 < dt) :
       rw [e]; omega
 
 
+/-! ## deepening round D: the time-string matcher against the regular expression -/
+
+/-- one `number \s* unit` group with the white space in front of it, as the regular expression describes it -/
+structure GG where
+  pre : List Char
+  d1 : List Char
+  dot : Bool
+  d2 : List Char
+  mid : List Char
+  unit : Nat
+
+def dotStr (dot : Bool) : List Char := if dot then ['.'] else []
+def GG.numStr (g : GG) : List Char := g.d1 ++ dotStr g.dot ++ g.d2
+def GG.core (g : GG) : List Char := g.numStr ++ g.mid ++ unitChars g.unit
+def GG.str (g : GG) : List Char := g.pre ++ g.core
+def GG.WF (g : GG) : Prop :=
+  g.pre.all isSpace = true ∧ g.d1.all isDigit = true ∧ g.d2.all isDigit = true ∧ g.d2 ≠ [] ∧
+  g.mid.all isSpace = true ∧ g.unit < 7
+def GG.tok (g : GG) : Tok := ⟨⟨digitsToNat (g.d1 ++ g.d2), if g.dot then g.d2.length else 0⟩, g.unit⟩
+def strsG (gs : List GG) : List Char := gs.flatMap GG.str
+
+theorem space_not_digit (c : Char) (h : isSpace c = true) : isDigit c = false := by
+  cases hd : isDigit c with
+  | false => rfl
+  | true => rw [digit_not_space c hd] at h; cases h
+
+theorem space_not_dot (c : Char) (h : isSpace c = true) : c ≠ '.' := by
+  intro he; subst he; revert h; decide
+
+theorem digit_not_dot (c : Char) (h : isDigit c = true) : c ≠ '.' := by
+  intro he; subst he; revert h; decide
+
+theorem dot_not_space : isSpace '.' = false := by decide
+theorem dot_not_digit : isDigit '.' = false := by decide
+theorem dot_not_unitChar : isUnitChar '.' = false := by decide
+
+/-- what a number starts with -/
+theorem numStr_head (g : GG) (h : g.WF) : ∃ c r, g.numStr = c :: r ∧ (isDigit c = true ∨ c = '.') := by
+  obtain ⟨_, h1, h2, hne, _, _⟩ := h
+  cases hd1 : g.d1 with
+  | cons a b =>
+    refine ⟨a, b ++ (dotStr g.dot ++ g.d2), by simp [GG.numStr, hd1], Or.inl ?_⟩
+    rw [hd1] at h1; simp only [List.all_cons, Bool.and_eq_true] at h1; exact h1.1
+  | nil =>
+    cases hdot : g.dot with
+    | true => exact ⟨'.', g.d2, by simp [GG.numStr, hd1, hdot, dotStr], Or.inr rfl⟩
+    | false =>
+      cases hd2 : g.d2 with
+      | nil => exact absurd hd2 hne
+      | cons a b =>
+        refine ⟨a, b, by simp [GG.numStr, hd1, hdot, dotStr, hd2], Or.inl ?_⟩
+        rw [hd2] at h2; simp only [List.all_cons, Bool.and_eq_true] at h2; exact h2.1
+
+/-- The number lexer reads exactly `\d*\.?\d+` when what follows is neither a digit nor a dot. -/
+theorem lexNumber_gg (g : GG) (h : g.WF) (c : Char) (r : List Char) (hc1 : isDigit c = false) (hc2 : c ≠ '.') :
+    lexNumber (g.numStr ++ c :: r) = some (g.tok.num, c :: r) := by
+  obtain ⟨_, h1, h2, hne, _, _⟩ := h
+  unfold GG.numStr dotStr GG.tok
+  cases hdot : g.dot with
+  | false =>
+    simp only [Bool.false_eq_true, ↓reduceIte, List.append_nil]
+    have hall : (g.d1 ++ g.d2).all isDigit = true := by simp [List.all_append, h1, h2]
+    have ht := takeWhile_append_stop (p := isDigit) (g.d1 ++ g.d2) (c :: r) hall
+      (by intro c' r' hc; simp only [List.cons.injEq] at hc; rw [← hc.1]; exact hc1)
+    unfold lexNumber
+    simp only [ht.1, ht.2]
+    have hne' : (g.d1 ++ g.d2).isEmpty = false := by
+      cases hd2 : g.d2 with
+      | nil => exact absurd hd2 hne
+      | cons a b => cases g.d1 <;> rfl
+    split
+    · rename_i r2 heq
+      simp only [List.cons.injEq] at heq
+      exact absurd heq.1 hc2
+    · simp [hne']
+  | true =>
+    simp only [↓reduceIte]
+    have e : g.d1 ++ ['.'] ++ g.d2 ++ c :: r = g.d1 ++ ('.' :: (g.d2 ++ c :: r)) := by simp
+    rw [e]
+    have ht := takeWhile_append_stop (p := isDigit) g.d1 ('.' :: (g.d2 ++ c :: r)) h1
+      (by intro c' r' hc; simp only [List.cons.injEq] at hc; rw [← hc.1]; exact dot_not_digit)
+    have ht2 := takeWhile_append_stop (p := isDigit) g.d2 (c :: r) h2
+      (by intro c' r' hc; simp only [List.cons.injEq] at hc; rw [← hc.1]; exact hc1)
+    unfold lexNumber
+    simp only [ht.1, ht.2, ht2.1, ht2.2]
+    have hne' : g.d2.isEmpty = false := by
+      cases hd2 : g.d2 with
+      | nil => exact absurd hd2 hne
+      | cons a b => rfl
+    simp [hne']
+
+theorem all_takeWhile' (p : Char → Bool) (l : List Char) : (l.takeWhile p).all p = true := by
+  induction l with
+  | nil => rfl
+  | cons x xs ih =>
+    simp only [List.takeWhile_cons]
+    cases hx : p x <;> simp [hx, ih]
+
+theorem dropWhile_head_not (p : Char → Bool) (l : List Char) (c : Char) (r : List Char)
+    (h : l.dropWhile p = c :: r) : p c = false := by
+  induction l with
+  | nil => simp at h
+  | cons x xs ih =>
+    simp only [List.dropWhile_cons] at h
+    cases hx : p x with
+    | true => rw [hx] at h; exact ih h
+    | false =>
+      rw [hx] at h; simp only [Bool.false_eq_true, ↓reduceIte, List.cons.injEq] at h
+      rw [← h.1]; exact hx
+
+/-- Whatever the number lexer accepts has the shape `\d*\.?\d+`. -/
+theorem lexNumber_sound (cs : List Char) (n : Dec) (r : List Char) (h : lexNumber cs = some (n, r)) :
+    ∃ d1 dot d2, d1.all isDigit = true ∧ d2.all isDigit = true ∧ d2 ≠ [] ∧
+      cs = d1 ++ dotStr dot ++ d2 ++ r ∧ n = ⟨digitsToNat (d1 ++ d2), if dot then d2.length else 0⟩ := by
+  simp only [lexNumber] at h
+  have hsplit := List.takeWhile_append_dropWhile (p := isDigit) (l := cs)
+  split at h
+  · rename_i r2 heq
+    split at h
+    · cases h
+    · rename_i hne
+      simp only [Option.some.injEq, Prod.mk.injEq] at h
+      refine ⟨cs.takeWhile isDigit, true, r2.takeWhile isDigit, all_takeWhile' _ _, all_takeWhile' _ _, ?_, ?_, h.1.symm⟩
+      · intro he; rw [he] at hne; simp at hne
+      · have h2 := List.takeWhile_append_dropWhile (p := isDigit) (l := r2)
+        rw [← h.2]
+        simp only [dotStr, ↓reduceIte]
+        rw [List.append_assoc, List.append_assoc, h2]
+        simp only [List.cons_append, List.nil_append]
+        rw [← heq, hsplit]
+  · split at h
+    · cases h
+    · rename_i hne
+      simp only [Option.some.injEq, Prod.mk.injEq] at h
+      refine ⟨[], false, cs.takeWhile isDigit, rfl, all_takeWhile' _ _, ?_, ?_, ?_⟩
+      · intro he; rw [he] at hne; simp at hne
+      · rw [← h.2]; simp [dotStr, hsplit]
+      · rw [← h.1]; simp
+
+
+theorem dropWhile_nil_of_all (p : Char → Bool) (l : List Char) (h : l.all p = true) : l.dropWhile p = [] := by
+  induction l with
+  | nil => rfl
+  | cons x xs ih =>
+    simp only [List.all_cons, Bool.and_eq_true] at h
+    simp [List.dropWhile_cons, h.1, ih h.2]
+
+theorem all_of_dropWhile_nil (p : Char → Bool) (l : List Char) (h : l.dropWhile p = []) : l.all p = true := by
+  induction l with
+  | nil => rfl
+  | cons x xs ih =>
+    simp only [List.dropWhile_cons] at h
+    cases hx : p x with
+    | true => rw [hx] at h; simp [hx, ih h]
+    | false => rw [hx] at h; simp at h
+
+theorem unitIndex_sound (u : List Char) (i : Nat) (h : unitIndex? (String.ofList u) = some i) :
+    i < 7 ∧ u = unitChars i := by
+  unfold unitIndex? at h
+  rw [List.findIdx?_eq_some_iff_getElem] at h
+  obtain ⟨hi, hp, _⟩ := h
+  have hi7 : i < 7 := hi
+  refine ⟨hi7, ?_⟩
+  have he : units[i].1 = String.ofList u := eq_of_beq hp
+  unfold unitChars
+  rw [List.getElem?_eq_getElem hi]
+  simp only [Option.map_some, Option.getD_some]
+  have h2 := congrArg String.toList he
+  rw [String.toList_ofList] at h2
+  exact h2.symm
+
+/-- what may follow a unit: nothing, white space, or the next number -/
+theorem strsG_head (gs : List GG) (post : List Char) (hwf : ∀ g ∈ gs, g.WF) (hp : post.all isSpace = true)
+    (c : Char) (r : List Char) (h : strsG gs ++ post = c :: r) : isUnitChar c = false := by
+  cases gs with
+  | nil =>
+    simp only [strsG, List.flatMap_nil, List.nil_append] at h
+    rw [h] at hp; simp only [List.all_cons, Bool.and_eq_true] at hp
+    exact space_not_unitChar c hp.1
+  | cons g gs =>
+    have hg := hwf g (by simp)
+    obtain ⟨c0, r0, hn, hc0⟩ := numStr_head g hg
+    simp only [strsG, List.flatMap_cons, GG.str, GG.core, List.append_assoc] at h
+    cases hpre : g.pre with
+    | cons x xs =>
+      rw [hpre] at h; simp only [List.cons_append, List.cons.injEq] at h
+      have := hg.1; rw [hpre] at this; simp only [List.all_cons, Bool.and_eq_true] at this
+      rw [← h.1]; exact space_not_unitChar x this.1
+    | nil =>
+      rw [hpre, hn] at h; simp only [List.nil_append, List.cons_append, List.cons.injEq] at h
+      rw [← h.1]
+      rcases hc0 with hc0 | hc0
+      · exact digit_not_unitChar c0 hc0
+      · rw [hc0]; exact dot_not_unitChar
+
+theorem lexToks_complete (gs : List GG) (post : List Char) (hwf : ∀ g ∈ gs, g.WF) (hp : post.all isSpace = true)
+    (fuel : Nat) (hf : gs.length < fuel) :
+    lexToks fuel (strsG gs ++ post) = some (gs.map GG.tok, !post.isEmpty) := by
+  induction gs generalizing fuel with
+  | nil =>
+    cases fuel with
+    | zero => omega
+    | succ f =>
+      have hd : post.dropWhile isSpace = [] := dropWhile_nil_of_all _ _ hp
+      simp [strsG, lexToks, hd]
+  | cons g gs ih =>
+    cases fuel with
+    | zero => omega
+    | succ f =>
+      have hg := hwf g (by simp)
+      have hwf' : ∀ g ∈ gs, g.WF := fun x hx => hwf x (by simp [hx])
+      obtain ⟨c0, r0, hn, hc0⟩ := numStr_head g hg
+      obtain ⟨hpre, _, _, _, hmid, hu⟩ := hg
+      obtain ⟨u0, us, hu0⟩ : ∃ u0 us, unitChars g.unit = u0 :: us := by
+        cases h : unitChars g.unit with
+        | nil => exact absurd h (unit_facts g.unit hu).1
+        | cons a b => exact ⟨a, b, rfl⟩
+      obtain ⟨hu0d, hu0s, hu0p⟩ := unit_head g.unit hu u0 us hu0
+      -- the text after the number: `mid ++ unit ++ rest`, starting with a blank or the unit's first letter
+      obtain ⟨m0, mr, hm, hm0d, hm0p⟩ : ∃ m0 mr, g.mid ++ (unitChars g.unit ++ (strsG gs ++ post)) = m0 :: mr ∧
+          isDigit m0 = false ∧ m0 ≠ '.' := by
+        cases hmid' : g.mid with
+        | nil => exact ⟨u0, us ++ (strsG gs ++ post), by simp [hu0], hu0d, hu0p⟩
+        | cons a b =>
+          have := hmid; rw [hmid'] at this; simp only [List.all_cons, Bool.and_eq_true] at this
+          exact ⟨a, b ++ (unitChars g.unit ++ (strsG gs ++ post)), by simp, space_not_digit a this.1, space_not_dot a this.1⟩
+      have hcs : strsG (g :: gs) ++ post =
+          g.pre ++ (g.numStr ++ (g.mid ++ (unitChars g.unit ++ (strsG gs ++ post)))) := by
+        simp [strsG, GG.str, GG.core, List.append_assoc]
+      have h1 := takeWhile_append_stop (p := isSpace) g.pre
+        (g.numStr ++ (g.mid ++ (unitChars g.unit ++ (strsG gs ++ post)))) hpre
+        (by intro c r' hc; rw [hn] at hc; simp only [List.cons_append, List.cons.injEq] at hc
+            rw [← hc.1]
+            rcases hc0 with hc0 | hc0
+            · exact digit_not_space c0 hc0
+            · rw [hc0]; exact dot_not_space)
+      have hnum : lexNumber (g.numStr ++ (g.mid ++ (unitChars g.unit ++ (strsG gs ++ post)))) =
+          some (g.tok.num, g.mid ++ (unitChars g.unit ++ (strsG gs ++ post))) := by
+        rw [hm]; exact lexNumber_gg g (hwf g (by simp)) m0 mr hm0d hm0p
+      have h2 := takeWhile_append_stop (p := isSpace) g.mid (unitChars g.unit ++ (strsG gs ++ post)) hmid
+        (by intro c r' hc; rw [hu0] at hc; simp only [List.cons_append, List.cons.injEq] at hc
+            rw [← hc.1]; exact hu0s)
+      have h3 := takeWhile_append_stop (p := isUnitChar) (unitChars g.unit) (strsG gs ++ post)
+        (unit_facts g.unit hu).2.1
+        (by intro c r' hc; exact strsG_head gs post hwf' hp c r' hc)
+      have hrest_ne : (g.numStr ++ (g.mid ++ (unitChars g.unit ++ (strsG gs ++ post)))).isEmpty = false := by
+        rw [hn]; rfl
+      rw [hcs]
+      unfold lexToks
+      simp only [h1.2, hrest_ne, Bool.false_eq_true, ↓reduceIte, hnum, h2.2, h3.1, h3.2,
+        (unit_facts g.unit hu).2.2.2]
+      rw [ih hwf' f (by simp at hf; omega)]
+      simp [GG.tok]
+
+theorem lexToks_sound (fuel : Nat) (cs : List Char) (toks : List Tok) (trail : Bool)
+    (h : lexToks fuel cs = some (toks, trail)) :
+    ∃ gs post, (∀ g ∈ gs, g.WF) ∧ post.all isSpace = true ∧ cs = strsG gs ++ post ∧
+      toks = gs.map GG.tok ∧ trail = !post.isEmpty := by
+  induction fuel generalizing cs toks trail with
+  | zero =>
+    unfold lexToks at h
+    split at h
+    · rename_i he
+      simp only [Option.some.injEq, Prod.mk.injEq] at h
+      refine ⟨[], [], by simp, rfl, ?_, h.1.symm, h.2.symm⟩
+      simpa [strsG] using he
+    · cases h
+  | succ f ih =>
+    simp only [lexToks] at h
+    have hsp := List.takeWhile_append_dropWhile (p := isSpace) (l := cs)
+    split at h
+    · rename_i he
+      simp only [Option.some.injEq, Prod.mk.injEq] at h
+      have hall : cs.all isSpace = true := all_of_dropWhile_nil _ _ (by simpa using he)
+      exact ⟨[], cs, by simp, hall, by simp [strsG], h.1.symm, h.2.symm⟩
+    · split at h
+      · cases h
+      · rename_i n r1 hnum
+        split at h
+        · cases h
+        · rename_i ui hui
+          split at h
+          · cases h
+          · rename_i ts tr hrec
+            simp only [Option.some.injEq, Prod.mk.injEq] at h
+            obtain ⟨gs, post, hwf, hp, hcs, hts, htr⟩ := ih _ _ _ hrec
+            obtain ⟨d1, dot, d2, hd1, hd2, hne, hrest, hn⟩ := lexNumber_sound _ _ _ hnum
+            obtain ⟨hu7, huc⟩ := unitIndex_sound _ _ hui
+            have hm := List.takeWhile_append_dropWhile (p := isSpace) (l := r1)
+            have hu := List.takeWhile_append_dropWhile (p := isUnitChar) (l := r1.dropWhile isSpace)
+            refine ⟨⟨cs.takeWhile isSpace, d1, dot, d2, r1.takeWhile isSpace, ui⟩ :: gs, post, ?_, hp, ?_, ?_, ?_⟩
+            · intro g hg
+              rcases List.mem_cons.mp hg with hg | hg
+              · subst hg
+                exact ⟨all_takeWhile' _ _, hd1, hd2, hne, all_takeWhile' _ _, hu7⟩
+              · exact hwf g hg
+            · simp only [strsG, List.flatMap_cons, GG.str, GG.core, GG.numStr]
+              rw [← huc]
+              have : strsG gs = gs.flatMap GG.str := rfl
+              rw [← this, List.append_assoc, List.append_assoc, List.append_assoc, ← hcs, hu]
+              rw [List.append_assoc, hm, ← hrest, hsp]
+            · rw [← h.1, hts]; simp [GG.tok, hn]
+            · rw [← h.2, htr]
+
+
+/-! ### The regular expression, read as a specification -/
+
+/-- `(?P<u>\d*\.?\d+)\s*u` for the unit number `i`, with the token it captures. -/
+inductive GroupMatch (i : Nat) : List Char → Tok → Prop
+  | mk (d1 d2 mid : List Char) (dot : Bool) :
+      d1.all isDigit = true → d2.all isDigit = true → d2 ≠ [] → mid.all isSpace = true →
+      GroupMatch i (d1 ++ dotStr dot ++ d2 ++ mid ++ unitChars i)
+        ⟨⟨digitsToNat (d1 ++ d2), if dot then d2.length else 0⟩, i⟩
+
+/-- `(\s*(G_i)?)(\s*(G_{i+1})?)…(\s*(G_ns)?)`: the optional groups of the units `i … 6`, each preceded by `\s*`. -/
+inductive TailMatch : Nat → List Char → List Tok → Prop
+  | done : TailMatch 7 [] []
+  | absent (i : Nat) (ws rest : List Char) (toks : List Tok) :
+      i < 7 → ws.all isSpace = true → TailMatch (i + 1) rest toks → TailMatch i (ws ++ rest) toks
+  | present (i : Nat) (ws g rest : List Char) (tok : Tok) (toks : List Tok) :
+      i < 7 → ws.all isSpace = true → GroupMatch i g tok → TailMatch (i + 1) rest toks →
+      TailMatch i (ws ++ g ++ rest) (tok :: toks)
+
+/-- The part of the pattern after the sign: `(G_d)?` followed by `\s*(G_h)? … \s*(G_ns)?`. -/
+inductive BodyMatch : List Char → List Tok → Prop
+  | absent (rest : List Char) (toks : List Tok) : TailMatch 1 rest toks → BodyMatch rest toks
+  | present (g rest : List Char) (tok : Tok) (toks : List Tok) :
+      GroupMatch 0 g tok → TailMatch 1 rest toks → BodyMatch (g ++ rest) (tok :: toks)
+
+/-- canonical form of a tail: groups with strictly increasing units `≥ i`; trailing white space needs a free
+    `\s*` slot (none is left after an `ns` group) -/
+def CanonTail : Nat → List GG → List Char → Prop
+  | i, [], post => post.all isSpace = true ∧ (post = [] ∨ i < 7) ∧ i ≤ 7
+  | i, g :: gs, post => g.WF ∧ i ≤ g.unit ∧ CanonTail (g.unit + 1) gs post
+
+theorem GG.groupMatch (g : GG) (h : g.WF) : GroupMatch g.unit g.core g.tok := by
+  obtain ⟨_, h1, h2, hne, hm, _⟩ := h
+  exact GroupMatch.mk g.d1 g.d2 g.mid g.dot h1 h2 hne hm
+
+theorem tail_of_canon : ∀ (k i : Nat), i + k = 7 → ∀ (gs : List GG) (post : List Char),
+    CanonTail i gs post → TailMatch i (strsG gs ++ post) (gs.map GG.tok) := by
+  intro k
+  induction k with
+  | zero =>
+    intro i hi gs post hc
+    have hi7 : i = 7 := by omega
+    subst hi7
+    cases gs with
+    | nil =>
+      obtain ⟨_, h2, _⟩ := hc
+      rcases h2 with h2 | h2
+      · subst h2; exact TailMatch.done
+      · omega
+    | cons g gs =>
+      obtain ⟨hwf, h2, _⟩ := hc
+      have := hwf.2.2.2.2.2
+      omega
+  | succ k ih =>
+    intro i hi gs post hc
+    have hi7 : i < 7 := by omega
+    cases gs with
+    | nil =>
+      obtain ⟨h1, _, _⟩ := hc
+      have hrest := ih (i + 1) (by omega) [] [] ⟨rfl, Or.inl rfl, by omega⟩
+      have := TailMatch.absent i post [] [] hi7 h1 hrest
+      simpa [strsG] using this
+    | cons g gs =>
+      obtain ⟨hwf, h2, h3⟩ := hc
+      by_cases hu : g.unit = i
+      · have hrest := ih (i + 1) (by omega) gs post (by rw [← hu]; exact h3)
+        have hg := GG.groupMatch g hwf
+        rw [hu] at hg
+        have := TailMatch.present i g.pre g.core (strsG gs ++ post) g.tok (gs.map GG.tok) hi7 hwf.1 hg hrest
+        simpa [strsG, GG.str, List.append_assoc] using this
+      · have hrest := ih (i + 1) (by omega) (g :: gs) post ⟨hwf, by omega, h3⟩
+        have := TailMatch.absent i [] _ _ hi7 rfl hrest
+        simpa using this
+
+theorem canon_of_tail (i : Nat) (cs : List Char) (toks : List Tok) (h : TailMatch i cs toks) :
+    ∃ gs post, cs = strsG gs ++ post ∧ CanonTail i gs post ∧ toks = gs.map GG.tok := by
+  induction h with
+  | done => exact ⟨[], [], rfl, ⟨rfl, Or.inl rfl, by omega⟩, rfl⟩
+  | absent i ws rest toks hi hws _ ih =>
+    obtain ⟨gs, post, hcs, hc, ht⟩ := ih
+    cases gs with
+    | nil =>
+      obtain ⟨h1, _, _⟩ := hc
+      refine ⟨[], ws ++ post, by simp [strsG, hcs], ⟨?_, Or.inr hi, by omega⟩, ht⟩
+      simp [List.all_append, hws, h1]
+    | cons g gs =>
+      obtain ⟨hwf, h2, h3⟩ := hc
+      obtain ⟨w1, w2, w3, w4, w5, w6⟩ := hwf
+      refine ⟨⟨ws ++ g.pre, g.d1, g.dot, g.d2, g.mid, g.unit⟩ :: gs, post, ?_, ⟨⟨?_, w2, w3, w4, w5, w6⟩, by simp; omega, h3⟩, ?_⟩
+      · simp [hcs, strsG, GG.str, GG.core, GG.numStr, List.append_assoc]
+      · simp [List.all_append, hws, w1]
+      · simp [ht, GG.tok]
+  | present i ws g rest tok toks hi hws hg _ ih =>
+    obtain ⟨gs, post, hcs, hc, ht⟩ := ih
+    cases hg with
+    | mk d1 d2 mid dot h1 h2 hne hm =>
+      refine ⟨⟨ws, d1, dot, d2, mid, i⟩ :: gs, post, ?_, ⟨⟨hws, h1, h2, hne, hm, hi⟩, Nat.le_refl _, hc⟩, ?_⟩
+      · simp [hcs, strsG, GG.str, GG.core, GG.numStr, List.append_assoc]
+      · simp [ht, GG.tok]
+
+theorem canonTail_le (i j : Nat) (hji : j ≤ i) (gs : List GG) (post : List Char) (h : CanonTail i gs post) :
+    CanonTail j gs post := by
+  cases gs with
+  | nil =>
+    obtain ⟨h1, h2, h3⟩ := h
+    exact ⟨h1, h2.imp id (fun h => by omega), by omega⟩
+  | cons g gs =>
+    obtain ⟨h1, h2, h3⟩ := h
+    exact ⟨h1, by omega, h3⟩
+
+/-- canonical form of the whole body: nothing may precede a `d` group -/
+def CanonTop (gs : List GG) (post : List Char) : Prop :=
+  CanonTail 0 gs post ∧ ∀ g, gs.head? = some g → g.unit = 0 → g.pre = []
+
+theorem body_of_canon (gs : List GG) (post : List Char) (h : CanonTop gs post) :
+    BodyMatch (strsG gs ++ post) (gs.map GG.tok) := by
+  obtain ⟨hc, hh⟩ := h
+  cases gs with
+  | nil =>
+    obtain ⟨h1, _, _⟩ := hc
+    exact BodyMatch.absent _ _ (tail_of_canon 6 1 rfl [] post ⟨h1, Or.inr (by omega), by omega⟩)
+  | cons g gs =>
+    obtain ⟨hwf, _, h3⟩ := hc
+    by_cases hu : g.unit = 0
+    · have hpre := hh g rfl hu
+      have ht := tail_of_canon 6 1 rfl gs post (by rw [hu] at h3; exact h3)
+      have hg := GG.groupMatch g hwf
+      rw [hu] at hg
+      have := BodyMatch.present g.core (strsG gs ++ post) g.tok (gs.map GG.tok) hg ht
+      simpa [strsG, GG.str, hpre, List.append_assoc] using this
+    · exact BodyMatch.absent _ _ (tail_of_canon 6 1 rfl (g :: gs) post ⟨hwf, by omega, h3⟩)
+
+theorem canon_of_body (cs : List Char) (toks : List Tok) (h : BodyMatch cs toks) :
+    ∃ gs post, cs = strsG gs ++ post ∧ CanonTop gs post ∧ toks = gs.map GG.tok := by
+  cases h with
+  | absent rest toks ht =>
+    obtain ⟨gs, post, hcs, hc, htk⟩ := canon_of_tail 1 _ _ ht
+    refine ⟨gs, post, hcs, ⟨canonTail_le 1 0 (by omega) gs post hc, ?_⟩, htk⟩
+    intro g hg hu
+    cases gs with
+    | nil => simp at hg
+    | cons g' gs' =>
+      simp only [List.head?_cons, Option.some.injEq] at hg; subst hg
+      have := hc.2.1; omega
+  | present g rest tok toks hg ht =>
+    obtain ⟨gs, post, hcs, hc, htk⟩ := canon_of_tail 1 _ _ ht
+    cases hg with
+    | mk d1 d2 mid dot h1 h2 hne hm =>
+      refine ⟨⟨[], d1, dot, d2, mid, 0⟩ :: gs, post, ?_, ⟨⟨⟨rfl, h1, h2, hne, hm, by show (0 : Nat) < 7; omega⟩, Nat.le_refl _, hc⟩, ?_⟩, ?_⟩
+      · simp [hcs, strsG, GG.str, GG.core, GG.numStr, List.append_assoc]
+      · intro g hg _
+        simp only [List.head?_cons, Option.some.injEq] at hg; subst hg; rfl
+      · simp [htk, GG.tok]
+
+
+theorem canonTail_iff (gs : List GG) (post : List Char) (hwf : ∀ g ∈ gs, g.WF) (hp : post.all isSpace = true) :
+    ∀ i, i ≤ 7 → (CanonTail i gs post ↔
+      (∀ g, gs.head? = some g → i ≤ g.unit) ∧ strictlyIncreasing (gs.map (·.unit)) = true ∧
+      (∀ g, gs.getLast? = some g → post = [] ∨ g.unit < 6) ∧ (gs = [] → post = [] ∨ i < 7)) := by
+  induction gs with
+  | nil =>
+    intro i hi
+    simp [CanonTail, hp, hi, strictlyIncreasing]
+  | cons g gs ih =>
+    intro i hi
+    have hg := hwf g (by simp)
+    have hu : g.unit < 7 := hg.2.2.2.2.2
+    have ih' := ih (fun x hx => hwf x (by simp [hx])) (g.unit + 1) (by omega)
+    simp only [CanonTail, ih', hg, true_and]
+    cases gs with
+    | nil =>
+      simp [strictlyIncreasing]
+      intro _
+      constructor <;> (intro h; exact h.imp id (fun h => by omega))
+    | cons h t =>
+      simp only [List.head?_cons, Option.some.injEq, forall_eq', List.map_cons, strictlyIncreasing,
+        Bool.and_eq_true, decide_eq_true_eq, List.getLast?_cons_cons, reduceCtorEq, false_imp_iff, and_true]
+      constructor
+      · rintro ⟨h1, h2, h3, h4⟩; exact ⟨h1, ⟨by omega, h3⟩, h4⟩
+      · rintro ⟨h1, ⟨h2, h3⟩, h4⟩; exact ⟨h1, by omega, h3, h4⟩
+
+/-- the three checks `matchBody` makes, on the groups -/
+def checksG (gs : List GG) (leading trailing : Bool) : Bool :=
+  strictlyIncreasing (gs.map (·.unit)) &&
+  (match gs.head? with | some g => !(leading && decide (g.unit = 0)) | none => true) &&
+  (match gs.getLast? with | some g => !(trailing && decide (g.unit = 6)) | none => true)
+
+def leadingOf (cs : List Char) : Bool := match cs with | c :: _ => isSpace c | [] => false
+
+theorem leading_eq (g : GG) (hg : g.WF) (rest : List Char) :
+    leadingOf (g.str ++ rest) = !g.pre.isEmpty := by
+  unfold leadingOf
+  obtain ⟨c0, r0, hn, hc0⟩ := numStr_head g hg
+  cases hpre : g.pre with
+  | cons x xs =>
+    have := hg.1; rw [hpre] at this; simp only [List.all_cons, Bool.and_eq_true] at this
+    simp [GG.str, hpre, this.1]
+  | nil =>
+    simp only [GG.str, hpre, GG.core, hn, List.nil_append, List.cons_append, List.isEmpty_nil, Bool.not_true]
+    rcases hc0 with h | h
+    · exact digit_not_space c0 h
+    · rw [h]; exact dot_not_space
+
+theorem checksG_iff (gs : List GG) (post : List Char) (hwf : ∀ g ∈ gs, g.WF) (hp : post.all isSpace = true)
+    (leading : Bool) (hl : ∀ g, gs.head? = some g → leading = !g.pre.isEmpty) :
+    checksG gs leading (!post.isEmpty) = true ↔ CanonTop gs post := by
+  unfold CanonTop
+  rw [canonTail_iff gs post hwf hp 0 (by omega)]
+  unfold checksG
+  cases gs with
+  | nil => simp [strictlyIncreasing]
+  | cons g gs =>
+    have hl' := hl g rfl
+    simp only [List.head?_cons, Option.some.injEq, forall_eq', Nat.zero_le, true_and, Bool.and_eq_true,
+      reduceCtorEq, false_imp_iff, and_true]
+    cases hlast : (g :: gs).getLast? with
+    | none => simp at hlast
+    | some l =>
+      simp only [Bool.not_eq_true', Bool.and_eq_false_iff, decide_eq_false_iff_not, Option.some.injEq, forall_eq']
+      have hlu : l.unit < 7 := (hwf l (List.mem_of_getLast? hlast)).2.2.2.2.2
+      rw [hl']
+      constructor
+      · rintro ⟨⟨h1, h2⟩, h3⟩
+        refine ⟨⟨h1, ?_⟩, ?_⟩
+        · rcases h3 with h3 | h3
+          · left; simpa using h3
+          · right; omega
+        · intro hu
+          rcases h2 with h2 | h2
+          · simpa using h2
+          · exact absurd hu h2
+      · rintro ⟨⟨h1, h2⟩, h3⟩
+        refine ⟨⟨h1, ?_⟩, ?_⟩
+        · by_cases hu : g.unit = 0
+          · left; simp [h3 hu]
+          · right; exact hu
+        · rcases h2 with h2 | h2
+          · left; simp [h2]
+          · right; omega
+
+theorem length_le_strsG (gs : List GG) (hwf : ∀ g ∈ gs, g.WF) : gs.length ≤ (strsG gs).length := by
+  induction gs with
+  | nil => simp
+  | cons g gs ih =>
+    have hg := hwf g (by simp)
+    have : 1 ≤ g.d2.length := by
+      cases h : g.d2 with
+      | nil => exact absurd h hg.2.2.2.1
+      | cons a b => simp
+    have := ih (fun x hx => hwf x (by simp [hx]))
+    simp only [strsG, List.flatMap_cons, GG.str, GG.core, GG.numStr, List.length_append, List.length_cons] at *
+    omega
+
+theorem canonTail_wf (i : Nat) (gs : List GG) (post : List Char) (h : CanonTail i gs post) :
+    (∀ g ∈ gs, g.WF) ∧ post.all isSpace = true := by
+  induction gs generalizing i with
+  | nil => exact ⟨by simp, h.1⟩
+  | cons g gs ih =>
+    obtain ⟨h1, _, h3⟩ := h
+    have := ih _ h3
+    exact ⟨by intro x hx; rcases List.mem_cons.mp hx with hx | hx; · subst hx; exact h1
+              · exact this.1 x hx, this.2⟩
+
+theorem ite_some_eq {α} {c : Prop} [Decidable c] {a b : α} (h : (if c then some a else none) = some b) :
+    c ∧ a = b := by
+  by_cases hc : c
+  · rw [if_pos hc] at h; exact ⟨hc, by injection h⟩
+  · rw [if_neg hc] at h; cases h
+
+/-- the three checks `matchBody` makes after tokenising -/
+def checksT (toks : List Tok) (leading trailing : Bool) : Bool :=
+  strictlyIncreasing (toks.map (·.unit)) &&
+  (match toks.head? with | some t => !(leading && decide (t.unit = 0)) | none => true) &&
+  (match toks.getLast? with | some t => !(trailing && decide (t.unit = 6)) | none => true)
+
+theorem matchBody_unfold (cs : List Char) :
+    matchBody cs = match lexToks (cs.length + 1) cs with
+      | none => none
+      | some (toks, tr) => if checksT toks (leadingOf cs) tr then some toks else none := by
+  unfold matchBody
+  cases lexToks (cs.length + 1) cs with
+  | none => rfl
+  | some p => rfl
+
+theorem checksT_map (gs : List GG) (lead trail : Bool) :
+    checksT (gs.map GG.tok) lead trail = checksG gs lead trail := by
+  unfold checksT checksG
+  have e : ((fun x : Tok => x.unit) ∘ GG.tok) = fun g : GG => g.unit := by funext g; rfl
+  rw [List.map_map, List.head?_map, List.getLast?_map, e]
+  cases gs.head? <;> cases gs.getLast? <;> rfl
+
+theorem matchBody_eq (gs : List GG) (post : List Char) (hwf : ∀ g ∈ gs, g.WF) (hp : post.all isSpace = true) :
+    matchBody (strsG gs ++ post) =
+      if checksG gs (leadingOf (strsG gs ++ post)) (!post.isEmpty) then some (gs.map GG.tok) else none := by
+  rw [matchBody_unfold,
+    lexToks_complete gs post hwf hp _ (by have := length_le_strsG gs hwf; simp only [List.length_append]; omega)]
+  simp only [checksT_map]
+
+
 end Verif.C01
